@@ -85,6 +85,8 @@ func newReader(sym string) gozxing.Reader {
 // writerRow asks the real writer for the natural-size symbol and returns its
 // modules with the quiet zone stripped.
 func writerRow(w gozxing.Writer, sym, content string) (row []bool, err error, pan interface{}) {
+	enter("writer/hang", "writer/hang/"+sym, &Trace10{Kind: "writer", Sym: sym, Content: content, Pos: -1}, sym+" writer on "+content)
+	defer leave()
 	defer func() {
 		if r := recover(); r != nil {
 			pan = r
@@ -268,6 +270,8 @@ type readOut struct {
 // (forward only), scale >= 1 = rendered image through the binariser and the
 // full Decode path.
 func read(rd gozxing.Reader, row []bool, scale int) (o readOut) {
+	enter("reader/hang", "reader/hang", curTrace10, "1-D reader did not return")
+	defer leave()
 	defer func() {
 		if r := recover(); r != nil {
 			o.pan = r
@@ -318,8 +322,12 @@ func isReaderErr(err error) bool {
 	return ok
 }
 
+// curTrace10 is the trace being executed (for hang reports).
+var curTrace10 *Trace10
+
 // exec10 evaluates one trace and returns (outcome, failure).
 func exec10(tr *Trace10, probe func(string)) (string, *fail) {
+	curTrace10 = tr
 	switch tr.Kind {
 	case "writer":
 		// body without check digit -> the emitted symbol carries the standard's check digit
@@ -417,9 +425,12 @@ func exec10(tr *Trace10, probe func(string)) (string, *fail) {
 		case o.ext == tr.Addon && !match:
 			return "", &fail{"addon/accepted-with-wrong-parity", fmt.Sprintf("%d-digit add-on %q drawn with parity pattern %0*b (the value demands another) was accepted", len(ad), tr.Addon, len(ad), tr.Par)}
 		case o.ext == "" && match:
-			// not reading a valid add-on is a round-trip matter (C03), not a check-digit one
-			probe("probe.valid_addon_not_read")
-			return "ok:valid add-on not read", nil
+			// "accepted iff the parity matches": the main symbol was read, the
+			// add-on carries exactly the parity its value demands, and it was
+			// dropped
+			return "", &fail{"addon/rejected-with-right-parity", fmt.Sprintf("%d-digit add-on %q drawn with the parity pattern its value demands (%0*b) after %s %s was not reported", len(ad), tr.Addon, len(ad), tr.Par, tr.Sym, tr.Content)}
+		case o.ext != "" && o.ext != tr.Addon && match:
+			return "", &fail{"addon/misread", fmt.Sprintf("add-on %q with the right parity reported as %q", tr.Addon, o.ext)}
 		case o.ext != "" && o.ext != tr.Addon:
 			// fall-back reading: must be self-consistent with what is drawn
 			if len(o.ext) == 2 && len(ad) == 5 && o.ext == tr.Addon[:2] && ref.EAN2Parity(ad[0]*10+ad[1]) == (tr.Par>>3)&3 {
@@ -706,6 +717,11 @@ func jobs10(tier string) []job10 {
 	for lo := 0; lo < n8; lo += 4 * chunk {
 		j = append(j, job10{kind: "ean8-sweep", lo: lo, hi: lo + 4*chunk})
 	}
+	// EAN-5: all 100000 values with the parity their value demands (must be
+	// accepted) and with two other parity patterns (must not be)
+	for lo := 0; lo < 100000; lo += 5000 {
+		j = append(j, job10{kind: "ean5-sweep", lo: lo, hi: lo + 5000})
+	}
 	ns := 1500
 	if tier == "thorough" {
 		ns = 40000
@@ -752,7 +768,7 @@ func C10() *kit.Spec {
 		Level:    "fault_enumeration",
 		Rule: "one evaluation = one 1-D symbol through the real writer (fault-free, writer side) or one reference-constructed symbol, possibly with one substitution fault, through the real reader. " +
 			"Enumerated: all 2*10^6 UPC-E bodies through the real writer (check digit carried by the parity pattern == mod-10 of the expanded UPC-A number) and through the real reader (accepts body+check); EAN-8 writer over 10^6 (quick) / all 10^7 (thorough) bodies; " +
-			"for seeded numbers every position x every replacement digit (incl. the parity-encoded first digit of EAN-13 and number system/check of UPC-E); for seeded Code 128 / Code 93 symbols every symbol-character position x every other character; EAN-2 all 100 values x 4 parity patterns, EAN-5 seeded values x all 32 patterns. " +
+			"for seeded numbers every position x every replacement digit (incl. the parity-encoded first digit of EAN-13 and number system/check of UPC-E); for seeded Code 128 / Code 93 symbols every symbol-character position x every other character; EAN-2 all 100 values x 4 parity patterns; EAN-5 all 100000 values with the right and two other parity patterns, plus seeded values x all 32 patterns. " +
 			"distinct_nontrivial = distinct seeded traces that carry a fault",
 		StateMetric: "distinct (symbology, number, fault) traces; sweep counters",
 		Assumptions: []string{
@@ -773,6 +789,7 @@ func C10() *kit.Spec {
 		Run: func(c *kit.Ctx) {
 			j := jobs(c.Tier)[c.Run]
 			r := c.RNG
+			watchCtx = c
 			probe := func(p string) { c.Count(p, 1) }
 			do := func(tr *Trace10, hash bool) bool {
 				out, f := exec10(tr, probe)
@@ -837,6 +854,7 @@ func C10() *kit.Spec {
 					// reader side: the reference symbol for body+check must be accepted as such
 					if n%step == 0 {
 						tr := &Trace10{Kind: "reader", Sym: "upce", Content: want, Pos: -1}
+						curTrace10 = tr
 						o := read(rd, ref.UPCE(digitsOf(want)), 0)
 						cnt++
 						if _, f := judgeUPCEAN(tr, o, want, true, probe); f != nil {
@@ -849,6 +867,31 @@ func C10() *kit.Spec {
 				c.Steps(cnt)
 				c.Count("sweep.upce_bodies", j.hi-j.lo)
 				c.Event(fmt.Sprintf("upce %d-%d %d", j.lo, j.hi, cnt))
+			case "ean5-sweep":
+				sym := []string{"ean13", "upca", "ean8", "upce"}[r.Intn(4)]
+				body := randDigits(r, bodyLen(sym))
+				if sym == "upce" {
+					body[0] = r.Intn(2)
+				}
+				content := strOf(append(body, refCheck(sym, body)))
+				var cnt int64
+				for v := j.lo; v < j.hi; v++ {
+					ad := fmt.Sprintf("%05d", v)
+					right := ref.EAN5Parity(digitsOf(ad))
+					pars := []int{right, (right + 1 + r.Intn(31)) % 32, r.Intn(32)}
+					for _, par := range pars {
+						tr := &Trace10{Kind: "addon", Sym: sym, Content: content, Addon: ad, Par: par, Pos: -1}
+						cnt++
+						if _, f := exec10(tr, probe); f != nil {
+							report10(c, tr, f)
+							return
+						}
+					}
+				}
+				c.EvalN(cnt)
+				c.Steps(cnt)
+				c.Count("sweep.ean5_values", j.hi-j.lo)
+				c.Event(fmt.Sprintf("ean5 %d-%d", j.lo, j.hi))
 			case "ean8-sweep":
 				w := oned.NewEAN8Writer()
 				var cnt int64
@@ -1005,6 +1048,7 @@ func C10() *kit.Spec {
 				c.Fatal("bad trace: " + err.Error())
 				return
 			}
+			watchCtx = c
 			if _, f := exec10(tr, func(string) {}); f != nil {
 				report10(c, tr, f)
 			}
